@@ -121,8 +121,37 @@ def judge(ex, line, r, report=True):
         if bad and k == len(ops) - 1 and report:
             for call, xc, outcome, text in bad:
                 ex.report('%s|%s|%s' % (call, xc.replace('live-', 'live:'), outcome), line, r, text + ' — history: ' + describe(line), describe)
+    # identity of live descriptors: the object a descriptor number denotes (file type, inode; observed through fd_filestat_get after
+    # every step) must not change while the descriptor is live - otherwise it has come to alias something else
+    probes = {}
+    for inf in r['info']:
+        if inf.startswith('probe '):
+            w = inf.split()
+            probes[int(w[1])] = dict(x.split(':', 1) for x in w[2:])
+    ident = {}
+    t2 = Table()
+    for k, (i, name, errno, det) in enumerate(r['steps']):
+        t2.step(ops[k], errno, det, path)
+        pr = probes.get(k)
+        if pr is None:
+            continue
+        for x in list(ident):
+            if not t2.live(x):
+                del ident[x]
+        for xs, val in pr.items():
+            x = int(xs)
+            if x == 3 or not t2.live(x):
+                continue
+            if x not in ident:
+                ident[x] = val
+            elif ident[x] != val and k == len(ops) - 1 and report:
+                ex.report('identity|live-descriptor-denotes-another-object', line, r, 'descriptor %d denoted (filetype:inode) %s when it was opened and denotes %s after step %d although it was never closed — history: %s' % (
+                    x, ident[x], val, k, describe(line)), describe)
     if crash_class(r):
         k = len(r['steps'])
+        if k == len(ops) and report:
+            ex.crash(line, r, 'identity-probe|fd_filestat_get', describe)
+            return None
         if k != len(ops) - 1:
             # the crash must be in the last step (prefixes were explored before)
             print('MACHINERY-ERROR: history %r crashed at step %d, but its prefix passed earlier' % (line, k)); sys.exit(2)
